@@ -30,7 +30,7 @@ def plan(tier):
             "min_nontrivial": 60,
             "min_counters": {"elements_compared": 500, "kind:lit": 300, "kind:match": 300, "kind:any": 200,
                              "kind:all": 200, "kind:anymatch": 100, "selects_checked": 50,
-                             "builtin_collection_constraints": 100, "patterns_over_a_tuple_field": 150, "patterns_built_from_reused_sub_patterns": 200}}
+                             "builtin_collection_constraints": 100, "patterns_over_a_tuple_field": 150, "patterns_built_from_reused_sub_patterns": 200, "patterns_over_an_optional_collection": 150}}
 
 
 def setup(ctx):
@@ -52,13 +52,15 @@ def gen_world(rng):
         boxes.append({"cls": rng.choice(["Box", "FancyBox"]), "label": rng.choice(["B0", "B1", "B2"]), "lid": rng.randrange(len(parts)),
                       "parts": pl, "share": share and rng.random() < 0.5, "tags": [rng.choice("xyz") for _ in range(rng.randint(0, 2))],
                       "weight": rng.randint(0, 1), "ribbon": rng.choice("rs"),
-                      "spare": rng.randrange(len(parts)) if rng.random() < 0.6 else None})
+                      "spare": rng.randrange(len(parts)) if rng.random() < 0.6 else None,
+                      # a collection that may be missing
+                      "extras": [rng.randrange(len(parts)) for _ in range(rng.randint(0, 2))] if rng.random() < 0.6 else None})
     shelves = [{"code": rng.choice(["S0", "S1"]), "main": rng.randrange(len(boxes)),
                 "boxes": [rng.randrange(len(boxes)) for _ in range(rng.randint(0, 3))]} for _ in range(rng.randint(0, 3))]
     return {"parts": parts, "boxes": boxes, "shelves": shelves}
 
 
-ELEM_TYPE = {"lid": "Part", "spare": "Part", "parts": "Part", "row": "Part", "main": "Box", "boxes": "Box"}
+ELEM_TYPE = {"lid": "Part", "spare": "Part", "parts": "Part", "row": "Part", "extras": "Part", "main": "Box", "boxes": "Box"}
 
 
 def gen_part_pattern(rng, allow_empty=False):
@@ -124,6 +126,12 @@ def gen_box_pattern(rng, world, depth, allow_select):
     type_ = rng.choice(["Box", "Box", "FancyBox"])
     if type_ == "FancyBox" and rng.random() < 0.4:
         attrs["ribbon"] = ["lit", rng.choice("rs")]
+    if rng.random() < 0.2:
+        # a collection attribute declared Optional[List[Part]]: None has no members
+        k = rng.random()
+        cand = [rng.randrange(n) for _ in range(rng.choice([1, 1, 2]))]
+        attrs["extras"] = (["litobj", rng.randrange(n)] if k < 0.35 else ["match", gen_part_pattern(rng)] if k < 0.6 else
+                           ["anymatch", gen_part_pattern(rng)] if k < 0.8 else ["any", cand])
     if "parts" in attrs and rng.random() < 0.25:
         # the same elements through a field declared Tuple[Part, ...]
         attrs = {("row" if a == "parts" else a): c for a, c in attrs.items()}
@@ -169,6 +177,8 @@ def witnesses():
                                                  "pattern": {"type": "Box", "attrs": {"spare": ["match", {"type": "Part", "attrs": {"name": ["lit", "a"]}}]}}, "root_selected": False},
         "sub-pattern-object-used-in-a-second-pattern": {"world": world, "reuse": True, "root_selected": False,
                                                         "pattern": {"type": "Box", "attrs": {"lid": ["match", {"type": "Part", "attrs": {"name": ["lit", "a"]}}]}}},
+        "optional-collection-attribute-not-a-collection": {"world": dict(world, boxes=[dict(world["boxes"][0], extras=[0]), dict(world["boxes"][1], extras=None)]),
+                                                          "pattern": {"type": "Box", "attrs": {"extras": ["litobj", 0]}}, "root_selected": False},
         "selected-part-of-another-element": {"world": world, "pattern": {"type": "Box", "attrs": {"lid": ["select", {"type": "Part", "attrs": {}}]}}, "root_selected": True},
     }
 
@@ -186,6 +196,7 @@ def make_world(w, mm):
             pl = shared_list
         boxes.append(getattr(mm, b["cls"])(label=b["label"], lid=parts[b["lid"]], parts=pl, row=tuple(pl), tags=list(b["tags"]), weight=b["weight"],
                                            spare=parts[b["spare"]] if b.get("spare") is not None else None,
+                                           extras=[parts[i] for i in b["extras"]] if b.get("extras") is not None else None,
                                            **({"ribbon": b.get("ribbon", "")} if b["cls"] == "FancyBox" else {})))
     shelves = [mm.Shelf(code=s["code"], main=boxes[s["main"]], boxes=[boxes[i] for i in s["boxes"]]) for s in w["shelves"]]
     return parts, boxes, shelves
@@ -241,6 +252,8 @@ def matches(obj, pat, mm, parts):
         return False
     for a, c in pat["attrs"].items():
         v = getattr(obj, a)
+        if v is None and a == "extras":
+            v = []          # the optional collection is missing: no members
         k = c[0]
         if k == "lit":
             ok = (c[1] in v) if isinstance(v, (list, tuple)) else (v == c[1])
@@ -344,6 +357,7 @@ def run(spec, ctx):
     C = ctx["counters"]
     parts, boxes, shelves = make_world(spec["world"], mm)
     C["patterns_over_a_tuple_field"] += "row=" in skeleton(spec["pattern"])
+    C["patterns_over_an_optional_collection"] += "extras=" in skeleton(spec["pattern"])
     dom = boxes + parts + shelves
     pat = spec["pattern"]
     ks = kinds(pat, set())
